@@ -647,6 +647,31 @@ def applyFC (s : Schema) (ctx : Option Ty) (c : Cache) : Forest Unit → Forest 
 with `xsd_types = [None]`, `children = iter((root_node,))` and an empty cache -/
 def applySchema (s : Schema) (t : Forest Unit) : Forest Ann := (applyFC s none [] t).1
 
+/-! ## proxies constructed with a base element -/
+
+/-- `schema.base_element` of a proxy built as `XMLSchemaProxy(schema, base_element=…)`: a global or
+local element declaration, or an `xs:assert` component (XSD 1.1; xmlschema evaluates assertions
+with such a proxy) seen through the same protocol: its `.type` is the complex type that holds the
+assertion.  `assertion` = `schema.is_assertion_based()` (`base_element.parent is base_element.type`). -/
+structure BaseElem where
+  decl : ElemDecl
+  assertion : Bool
+  deriving Repr, Inhabited
+
+/-- `node.apply_schema(proxy)` (xpath_nodes.py:1216-1227 for the `base_element` branch): the node the
+schema is applied to takes the base element as its declaration; its type is the base element's type
+— `xs:anyType` for an assertion proxy — and its children are resolved in the content model of THE
+BASE ELEMENT'S TYPE (`xsd_types = [schema.base_element.type]`).  Siblings are not visited. -/
+def applySchemaB (s : Schema) (base : Option BaseElem) (t : Forest Unit) : Forest Ann :=
+  match base with
+  | none => applySchema s t
+  | some b =>
+    match t with
+    | .elem _ n ats x kids rest =>
+      .elem ⟨some (if b.assertion then .simple (.builtin .anyType) else b.decl.type), some b.decl⟩ n ats x
+        (applyFC s (some b.decl.type) [] kids).1 (clearF rest)
+    | other => clearF other
+
 /-! ## type names, typed values -/
 
 def Ty.name (s : Schema) : Ty → Option String
